@@ -248,7 +248,7 @@ func c14CheckTOTP(c c14TOTPCase) *vResult {
 	// reference limiter (deliberately weaker than any particular arithmetic).
 	// mode: "normal" (fails < 5 known), "locked" (5th consecutive failure at
 	// lockedAt), "unknown" (nothing asserted but the spacing until a success)
-	var virt time.Duration             // virtual time
+	var virt time.Duration              // virtual time
 	lastGate := time.Duration(-1 << 62) // virtual time of the last attempt that passed the 2 s gate
 	mode := "normal"
 	fails := 0
